@@ -15,7 +15,7 @@ RULE = ('Model-based, histories: generated sequences (1..60 steps) of public edi
         'Part machine: the same interpreter driven by a Hypothesis RuleBasedStateMachine. non-trivial: a removal of a non-last node or line followed '
         'by >= 2 further edits, or an eliminate/substitute followed by edits; distinct by SHA-1 of the history.')
 ASSUMPTIONS = ['well-formed use only: explicit pins on free positions, a fork has at most one input line (pin 0, not from itself or from a fork it feeds), nodes are removed '
-               'after their lines and after being taken off the port list, eliminate_1to1_forks only when every 1:1 fork is driven',
+               'after their lines and after being taken off the port list, removing a removed line or node again is a no-op',
                'substitute: the model does not predict names of copied-in nodes; untouched nodes/lines must be preserved and the result must be '
                'structurally valid, then the model is re-derived']
 
@@ -195,6 +195,7 @@ class Interp:
         self.edits_after = None     # counts edits after an interesting removal / transformation
         self.steps = 0
         self._impls = None
+        self.dead = []           # removed Line / Node objects (handles a caller may still hold)
         self.originals = []      # circuits that were copied / pickled earlier: later edits of the copy must not reach them
 
     # helpers -----------------------------------------------------------------------------
@@ -343,6 +344,10 @@ class Interp:
             lo.remove()
             m.remove_line(li)
             done = True
+            if self.dead and p % 2 == 0:          # removing an object a second time is a no-op (both remove() methods say so by their guards)
+                self.dead[b % len(self.dead)].remove()
+                self.flags.add('removed_twice')
+            self.dead.append(lo)
         elif name == 'rmn':
             cand = [k for k in keys if all(x is None for x in m.nodes[k]['ins']) and all(x is None for x in m.nodes[k]['outs'])
                     and k not in m.io]
@@ -354,6 +359,10 @@ class Interp:
                 n.remove()
                 del m.nodes[k]
                 done = True
+                if self.dead and p % 2 == 0:
+                    self.dead[b % len(self.dead)].remove()
+                    self.flags.add('removed_twice')
+                self.dead.append(n)
         elif name == 'ioapp' and keys:
             k = keys[a % len(keys)]
             if k not in m.io:
